@@ -390,7 +390,7 @@ where
             _ => n - 1,
         }
     };
-    let kind = tape::weighted(Stream::Faults, "fault.kind", &[6, 2, 1, 2, 2, 2, 5]);
+    let kind = tape::weighted(Stream::Faults, "fault.kind", &[5, 2, 1, 2, 2, 2, 8]);
     let kind_name;
     match kind {
         0 => {
@@ -548,7 +548,7 @@ fn crafted_cancellation<B: StarkField>(spec: &Spec<B>, clean: &[Vec<B>], frng: &
     rho /= B::from(n as u32);
     let mut keep: Vec<usize> = Vec::new(); // assertions whose claimed value stays the honest one
     let mut aux_fault = None;
-    let sub = tape::f("fault.crafted.kind", 5);
+    let sub = tape::f("fault.crafted.kind", 9);
     let name = match sub {
         0 => {
             // two assertions of one boundary group (step 0): errors e and -e
@@ -608,6 +608,58 @@ fn crafted_cancellation<B: StarkField>(spec: &Spec<B>, clean: &[Vec<B>], frng: &
             keep.push(ai);
             aux_fault = Some(AuxFault { col: tape::f("fault.auxcol", spec.aux_width as u64) as usize, step: 0, delta: -k, rebuild_forward: true });
             "crafted_main_assertion_against_aux_assertion"
+        },
+        5 => {
+            // isolated: one assertion on step 0 fails and nothing else does (the rest of the trace
+            // follows from the changed first row) - a dropped boundary constraint cannot hide
+            // behind a transition that fails as well
+            let zero_cover: Vec<(usize, usize)> = spec
+                .assertions
+                .iter()
+                .enumerate()
+                .filter(|(_, a)| match a.kind {
+                    AssertKind::Single { step } => step == 0,
+                    AssertKind::Periodic { first, .. } | AssertKind::Sequence { first, .. } => first == 0,
+                })
+                .map(|(i, a)| (i, a.column))
+                .collect();
+            let (ai, c) = zero_cover[tape::f("fault.crafted.a", zero_cover.len() as u64) as usize];
+            if matches!(spec.assertions[ai].kind, AssertKind::Periodic { .. }) {
+                // the claimed value of a periodic assertion is one number for all its steps
+                return None;
+            }
+            main[c][0] += e;
+            recompute_forward(spec, &mut main, 0);
+            keep.push(ai);
+            "isolated_main_assertion_on_first_step"
+        },
+        6 => {
+            if spec.aux_width == 0 {
+                return None;
+            }
+            let k = 1 + tape::f("fault.crafted.delta", 1000) as i64;
+            aux_fault = Some(AuxFault { col: tape::f("fault.auxcol", spec.aux_width as u64) as usize, step: 0, delta: k, rebuild_forward: true });
+            "isolated_aux_assertion"
+        },
+        7 => {
+            // isolated: one transition constraint fails on one step and nothing else does
+            if n - spec.exemptions < 2 {
+                return None;
+            }
+            let s = tape::f("fault.crafted.step", (n - spec.exemptions) as u64) as usize;
+            let t = tape::f("fault.crafted.t", w as u64) as usize;
+            main[t][s + 1] += e;
+            recompute_forward(spec, &mut main, s + 1);
+            "isolated_main_transition"
+        },
+        8 => {
+            if spec.aux_width == 0 || n - spec.exemptions < 2 {
+                return None;
+            }
+            let s = tape::f("fault.crafted.step", (n - spec.exemptions) as u64) as usize;
+            let k = 1 + tape::f("fault.crafted.delta", 1000) as i64;
+            aux_fault = Some(AuxFault { col: tape::f("fault.auxcol", spec.aux_width as u64) as usize, step: s + 1, delta: k, rebuild_forward: true });
+            "isolated_aux_transition"
         },
         _ => {
             // a main transition against an auxiliary transition on the same step
